@@ -1204,7 +1204,75 @@ class C16(Prop):
                                                         detail=f"step {k}: impl {a[k] if k < len(a) else None} model {b[k] if k < len(b) else None}"))
 
 
-REGISTRY = {"C16": C16(), "C05": C05(), "C18": C18(), "C08": C08(), "C07": C07(), "C03": C03(), "C02": C02(), "C20": C20(), "C09": C09(), "C10": C10(), "C14": C14(), "C12": C12()}
+# ------------------------------------------------------------------------------------------
+# C15
+
+class C15(Prop):
+    rule = ("operation histories over the public mutation API of Value (parse incl. duplicate keys, clone, drop, pointer reads, and pointer_mut(path) "
+            "followed by push / pop / Array::insert / remove / swap_remove / truncate / clear / Object::insert / remove / take / assignment / "
+            "v[key]= / v[idx]= / entry().or_insert, with values that are freshly parsed or clones of parts of other slots, wrong-kind and "
+            "out-of-range variants included): fixed histories, every ordered pair of 12 array mutations on a value and its clone, every ordered pair "
+            "of 10 object mutations on a duplicate-key object and its clone, and random histories; after every step the result of the operation and a "
+            "canonical dump of EVERY live value must equal the reference model of plain vectors and maps (oracle), and dump + representation skeleton "
+            "(which containers are still arena nodes, via the verif hook) must equal the Lean representation model (correspondence); "
+            "non-trivial = the history mutates through a path")
+    trusted = ["canonical dumps go through the public read API (iteration, as_*); objects are dumped one member per key (the first), sorted by key: "
+               "len() and iteration of a parsed object with duplicate keys show the duplicates, which is documented behaviour and outside the map model",
+               "numbers of the histories are small integers; HashMap iteration order is not part of the model"]
+    assumptions = ["a panic is reported as 'the reference rejects the operation'; the value must then still dump as before"]
+
+    def explore(self, ctx, res):
+        name = "c15"
+        cases_path = generate(ctx, name)
+        impl, model, crashed, err = run_stream(ctx, name, cases_path)
+        with open(cases_path) as f:
+            cases = f.read().splitlines()
+        if crashed or len(impl) != len(cases):
+            idx = min(len(impl), len(cases) - 1)
+            res.oracle_failures.append(dict(key="c15:process-abort", case=cases[idx],
+                                            detail=f"harness exited abnormally after {len(impl)} of {len(cases)} cases: {err[-300:]}"))
+        n = min(len(impl), len(cases))
+        for i in range(n):
+            case = cases[i]
+            res.evaluations += 1
+            ops = case.split(" ")[1].split(";")
+            if any(o.startswith("X:") and o.split(":")[2] != "-" for o in ops):
+                res.nontrivial(case)
+            for o in ops:
+                res.distribution[o.split(":")[3] if o.startswith("X:") else o[0]] += 1
+            if len(res.samples) < 6 and i % max(1, n // 6) == 0:
+                res.samples.append({"case": case[:300], "impl": impl[i][:300], "model": (model[i][:300] if model and i < len(model) else None)})
+            if impl[i].startswith("PANIC"):
+                res.oracle_failures.append(dict(key="C15|harness-panic", case=case, detail=impl[i][:200]))
+                continue
+            if model is None:
+                continue
+            if i >= len(model):
+                res.model_disagreements.append(dict(key="c15:model-output-missing", case=case, detail=""))
+                continue
+            M = ctx["parse_fields"](model[i])
+            a = impl[i].split(";")
+            # oracle: results and dumps against the reference model
+            b = M.get("spec", "").split(";")
+            for k in range(max(len(a), len(b))):
+                ia = "|".join(a[k].split("|")[:2]) if k < len(a) else None
+                if k >= len(b) or ia != b[k]:
+                    op = ops[k] if k < len(ops) else "?"
+                    opn = op.split(":")[3] if op.startswith("X:") else op[0]
+                    what = "result" if (k < len(a) and k < len(b) and a[k].split("|")[0] != b[k].split("|")[0]) else "contents"
+                    empty = op.startswith("X:") and op.split(":")[2] == "-"
+                    res.oracle_failures.append(dict(key=f"C15|{opn}|{what}-differs-from-reference" + ("|empty-path" if empty else ""), case=case,
+                                                    detail=f"step {k} ({op}): impl {ia} reference {b[k] if k < len(b) else None}"))
+                    break
+            # correspondence: the representation model
+            m = M.get("model", "").split(";")
+            if a != m:
+                k = next((k for k in range(min(len(a), len(m))) if a[k] != m[k]), min(len(a), len(m)))
+                res.model_disagreements.append(dict(key="c15:representation-model-differs", case=case,
+                                                    detail=f"step {k}: impl {a[k] if k < len(a) else None} model {m[k] if k < len(m) else None}"))
+
+
+REGISTRY = {"C15": C15(), "C16": C16(), "C05": C05(), "C18": C18(), "C08": C08(), "C07": C07(), "C03": C03(), "C02": C02(), "C20": C20(), "C09": C09(), "C10": C10(), "C14": C14(), "C12": C12()}
 for _k, _v in REGISTRY.items():
     _v.pid = _k
 
